@@ -104,6 +104,11 @@ func runC08(w *core.World, r *core.Report) {
 
 	// ---- R2 -----------------------------------------------------------------------------------
 	checkPairing(w, r, "R2")
+	for _, fn := range w.FuncsIn("engine") {
+		if len(core.CallsTo(fn, "state.(*State).Restart")) > 0 && len(core.CallsTo(fn, stUp)) > 0 {
+			checkRestartAfterUnwind(w, r, fn, "R2")
+		}
+	}
 
 	// ---- R3 -----------------------------------------------------------------------------------
 	anyContainer := func(t types.Type) bool { return true }
@@ -294,38 +299,103 @@ func panicInfeasible(p *ssa.Panic) bool {
 }
 
 // guardedByMaxLevel: the call is only reached through an edge of a comparison with state.MaxLevel
-// on which the compared depth is below (or at most) the limit.
+// that implies len(ExecPath) <= MaxLevel (the negation of Down's panic condition). The compared
+// expression is read as len(ExecPath)+off: State.Depth() is len-1 (checked on Depth's body),
+// len(st.ExecPath) is len+0, and +/- constants shift the offset.
 func guardedByMaxLevel(c ssa.CallInstruction) bool {
 	fn := c.Parent()
 	cut := core.NewCut()
 	n := 0
+	isMax := func(v ssa.Value) bool {
+		for _, s := range core.Sources(v) {
+			if g := core.GlobalOf(s); g != nil && g.Name() == "MaxLevel" {
+				return true
+			}
+		}
+		return false
+	}
+	var lenOff func(v ssa.Value, d int) (int64, bool)
+	lenOff = func(v ssa.Value, d int) (int64, bool) {
+		if d > 4 {
+			return 0, false
+		}
+		v = core.Strip(v)
+		switch t := v.(type) {
+		case *ssa.Call:
+			if core.IsCallTo(t, "state.(*State).Depth") {
+				if g := core.StaticCallee(t); g != nil && depthIsLenMinusOne(g) {
+					return -1, true
+				}
+			}
+			if core.IsCallTo(t, "builtin.len") {
+				if _, f, ok := core.LoadedField(t.Call.Args[0]); ok && f == "ExecPath" {
+					return 0, true
+				}
+			}
+		case *ssa.BinOp:
+			if k, ok := core.ConstInt(t.Y); ok && (t.Op == token.ADD || t.Op == token.SUB) {
+				if o, ok := lenOff(t.X, d+1); ok {
+					if t.Op == token.ADD {
+						return o + k, true
+					}
+					return o - k, true
+				}
+			}
+		}
+		return 0, false
+	}
 	for _, b := range fn.Blocks {
 		for _, in := range b.Instrs {
 			bo, ok := in.(*ssa.BinOp)
 			if !ok {
 				continue
 			}
-			isMax := func(v ssa.Value) bool {
-				for _, s := range core.Sources(v) {
-					if g := core.GlobalOf(s); g != nil && g.Name() == "MaxLevel" {
-						return true
-					}
+			x, m, op := bo.X, bo.Y, bo.Op
+			if isMax(bo.X) && !isMax(bo.Y) {
+				x, m = bo.Y, bo.X
+				switch op {
+				case token.LSS:
+					op = token.GTR
+				case token.GTR:
+					op = token.LSS
+				case token.LEQ:
+					op = token.GEQ
+				case token.GEQ:
+					op = token.LEQ
 				}
-				return false
 			}
-			switch {
-			case isMax(bo.Y) && (bo.Op == token.GEQ || bo.Op == token.GTR):
-				cut.AddEdge(core.EdgesWhere(bo, false)...)
-				n++
-			case isMax(bo.Y) && (bo.Op == token.LSS || bo.Op == token.LEQ):
-				cut.AddEdge(core.EdgesWhere(bo, true)...)
-				n++
-			case isMax(bo.X) && (bo.Op == token.LEQ || bo.Op == token.LSS):
-				cut.AddEdge(core.EdgesWhere(bo, false)...)
-				n++
-			case isMax(bo.X) && (bo.Op == token.GTR || bo.Op == token.GEQ):
-				cut.AddEdge(core.EdgesWhere(bo, true)...)
-				n++
+			if !isMax(m) {
+				continue
+			}
+			off, ok := lenOff(x, 0)
+			if !ok {
+				continue
+			}
+			// len+off  op  M ; which edge implies len <= M ?
+			//   true edge of  <  : len <= M-1-off   safe iff off >= -1
+			//   true edge of  <= : len <= M-off     safe iff off >= 0
+			//   false edge of >= : same as <        ; false edge of > : same as <=
+			switch op {
+			case token.LSS:
+				if off >= -1 {
+					cut.AddEdge(core.EdgesWhere(bo, true)...)
+					n++
+				}
+			case token.LEQ:
+				if off >= 0 {
+					cut.AddEdge(core.EdgesWhere(bo, true)...)
+					n++
+				}
+			case token.GEQ:
+				if off >= -1 {
+					cut.AddEdge(core.EdgesWhere(bo, false)...)
+					n++
+				}
+			case token.GTR:
+				if off >= 0 {
+					cut.AddEdge(core.EdgesWhere(bo, false)...)
+					n++
+				}
 			}
 		}
 	}
@@ -334,4 +404,28 @@ func guardedByMaxLevel(c ssa.CallInstruction) bool {
 	}
 	ok, _ := core.MustPass(c.(ssa.Instruction), cut)
 	return ok
+}
+
+// depthIsLenMinusOne: State.Depth returns len(ExecPath) - 1.
+func depthIsLenMinusOne(g *ssa.Function) bool {
+	if len(g.Blocks) != 1 {
+		return false
+	}
+	ret, ok := g.Blocks[0].Instrs[len(g.Blocks[0].Instrs)-1].(*ssa.Return)
+	if !ok || len(ret.Results) != 1 {
+		return false
+	}
+	bo, ok := ret.Results[0].(*ssa.BinOp)
+	if !ok || bo.Op != token.SUB {
+		return false
+	}
+	if k, ok := core.ConstInt(bo.Y); !ok || k != 1 {
+		return false
+	}
+	lc, ok := bo.X.(*ssa.Call)
+	if !ok || !core.IsCallTo(lc, "builtin.len") {
+		return false
+	}
+	_, f, ok := core.LoadedField(lc.Call.Args[0])
+	return ok && f == "ExecPath"
 }
